@@ -481,6 +481,20 @@ class TwinGen(object):
         F = sc.F
         k = int(r.integers(0, 12))
         n = self.n = getattr(self, "n", 0) + 1
+        vr = getattr(self, "vec_range", None)
+        if vr is not None and r.random() < 0.3:
+            # a well-formed sweep (ascending, same count) that leaves the
+            # range of a vector parameter a standard already uses: refused
+            # late, after the ordinary argument checks have passed
+            hi = vr[1]
+            if F == 1:
+                fv = [hi * 2.0]
+            else:
+                fv = list(np.linspace(float(sc.freqs[0]), hi * 2.0, F))
+            s.rvec("rq%d" % n, fv)
+            self.cand.add(s.op("vnacal_new_set_frequency_vector $%s @rq%d" % (
+                vn, n)))
+            return
         if k == 11:
             if sc.form != "ab":
                 k = 5
@@ -579,6 +593,16 @@ class TwinGen(object):
             if r.random() < 0.5:
                 self.refusals("vn", sc)
             L["add"].append(sc.emit_std(s, st, i, uid=uid))
+            for row in st.sp:
+                for q in row:
+                    q = getattr(q, "guess", q)
+                    if q.kind == "vector":
+                        pf = getattr(q, "pfreqs", None)
+                        rg = (float(pf[0]), float(pf[-1])) if pf is not None \
+                            else (float(sc.freqs[0]), float(sc.freqs[-1]))
+                        old = getattr(self, "vec_range", None)
+                        self.vec_range = rg if old is None else \
+                            (max(old[0], rg[0]), min(old[1], rg[1]))
         for _ in range(int(r.integers(1, 4))):
             self.refusals("vn", sc)
         L["solve"] = s.op("vnacal_new_solve $vn")
